@@ -131,6 +131,7 @@ type World struct {
 	sqlUnsupported      string // first statement the interpreter could not handle (the run is then inconclusive)
 	sqlUnsupportedTaint string
 	parkSeq             int
+	ddlSeen             bool // the real bucket.AddLedger ran: triggers fire as registered, not as the features say
 	stalledUntil        map[string]int // task key -> scheduler step until which it is passed over
 	recordYields        bool // fault enumeration: remember every yield that admits a fault
 	yields              []YieldSite
